@@ -1186,7 +1186,7 @@ def build(chk: Check) -> None:
     chk.sub("tiff_decode", o_tiff, strategy=s_case(**gen), n=n3, budget_s=b3, shrink=False)
     chk.sub("layout", o_layout, strategy=s_case(**gen), n=n3, budget_s=b3, shrink=False)
     chk.sub("thin_images", o_all, strategy=s_case(focus="thin", **gen), n={"quick": 56, "thorough": 1600}, budget_s={"quick": 40, "thorough": 100}, shrink=False)
-    chk.sub("header_rule", o_header, strategy=s_header(), n={"quick": 500, "thorough": 30000}, budget_s={"quick": 40, "thorough": 100}, shrink=False)
+    chk.sub("header_rule", o_header, cov={"quick": 300, "thorough": 20000}, strategy=s_header(), n={"quick": 500, "thorough": 30000}, budget_s={"quick": 40, "thorough": 100}, shrink=False)
     chk.known("D23", _k_last_level)
     chk.known("D24", _k_axis_guess)
     chk.known("D25", _k_default_block0)
